@@ -99,6 +99,19 @@ Theorem C17_regression_namesake_retry :
   /\ build namesake_prog [2; 4; 3; 5] = Ok (mk_graph [2; 4; 3; 5] [mk_edge EAssoc 2 3 6; mk_edge EAssoc 2 5 7]).
 Proof. exact namesake_regression. Qed.
 
+(* outside the fragment (open findings C17-e, C17-f): a TYPE_CHECKING-only name that has a namesake among the diagram's
+   classes.  (e) User.item follows the list order (the last class of that __name__ wins); (f) Child's inherited field pit,
+   which Parent's own module resolves to its own Item, is re-bound by Child's retry to the other module's Item *)
+Theorem C17_refuted_missing_namesake :
+  (build missing_prog [5; 2; 3] = Ok (mk_graph [5; 2; 3] [mk_edge EAssoc 5 3 8])
+   /\ g_edges (spec_graph missing_prog [5; 2; 3]) = [mk_edge EAssoc 5 2 8]
+   /\ build missing_prog [5; 3; 2] = Ok (mk_graph [5; 3; 2] [mk_edge EAssoc 5 2 8]))
+  /\ (build missing_prog [4; 6; 3; 2]
+        = Ok (mk_graph [4; 6; 3; 2] [mk_edge EInh 4 6 1; mk_edge EAssoc 4 3 7; mk_edge EAssoc 6 2 7; mk_edge EAssoc 6 2 9])
+      /\ g_edges (spec_graph missing_prog [4; 6; 3; 2])
+        = [mk_edge EInh 4 6 1; mk_edge EAssoc 4 3 7; mk_edge EAssoc 6 2 9; mk_edge EAssoc 6 3 7]).
+Proof. exact missing_namesake_refuted. Qed.
+
 Example C17_nonvacuous :
   wf_ty (Optional (Cls 2)) = true /\ wf_ty (OptionalL (Cls 2)) = true /\ wf_ty (Cont KList (Enum 3)) = true /\ wf_ty (TypeOf (Cls 2)) = true /\
   k_one_to_one (spec_kind (Optional (Cls 2))) = true /\ k_endpoint (spec_kind (TypeOf (Cls 2))) = Cls 2 /\
@@ -122,3 +135,4 @@ Print Assumptions C17_refuted_shared_memo.
 Print Assumptions C17_regression_union_none_first.
 Print Assumptions C17_regression_two_unresolved.
 Print Assumptions C17_regression_namesake_retry.
+Print Assumptions C17_refuted_missing_namesake.
